@@ -96,6 +96,12 @@ def snapshot() -> dict:
                     out[f"{m}.{k}.cache"] = ["v", "int", repr(v.cache_info().currsize)]
                 except Exception:
                     pass
+    # interpreter-wide settings a library has no business leaving changed behind a call
+    import os
+    out["<interpreter>.recursionlimit"] = ["v", "int", repr(sys.getrecursionlimit())]
+    out["<interpreter>.cwd"] = ["v", "str", os.getcwd()]
+    out["<interpreter>.environ"] = ["v", "str", hashlib.sha256(repr(sorted(os.environ.items())).encode()).hexdigest()[:16]]
+    out["<interpreter>.sys.path"] = ["v", "str", hashlib.sha256(repr(list(sys.path)).encode()).hexdigest()[:16]]
     return out
 
 
